@@ -240,6 +240,8 @@ func runC09(c *Check) {
 	c.errorsContinue()
 	c.constantPatterns()
 	c.negationRecursionGuarded()
+	// a profile that no source of a chunk produced is never merged (shared with C16-R7)
+	c.relabel(c.combineNonNil, "C16-R7", "C09-R11", nil)
 }
 
 // guardRule runs A-GUARD over the selected functions.
